@@ -142,7 +142,7 @@ fn report(ctx: &Ctx, sub: &str, idx: u64, base: &Base, what: &str, r: Parsed, ou
 
 pub fn run_c16(ctx: &Ctx) -> i32 {
     let mut out = Outcome::default();
-    let nbase = ctx.tier.pick(10, 40);
+    let nbase = ctx.tier.pick(16, 60);
     let bases = Arc::new(base_streams(ctx.seed, nbase));
     if bases.len() < 4 {
         out.inconclusive.push(format!("only {} base streams could be generated", bases.len()));
@@ -185,7 +185,7 @@ pub fn run_c16(ctx: &Ctx) -> i32 {
         }
     });
     // (2) bursts of length 2..=8 (first and last bit set: 127 patterns) at every bit offset
-    let burst_bases = ctx.tier.pick(3, bases.len());
+    let burst_bases = ctx.tier.pick(5, bases.len());
     let (w2, b2) = (Arc::clone(&work), Arc::clone(&bases));
     run_cases(ctx, "burst", work.len() as u64, &mut out, |idx, out| {
         let (bi, s) = w2[idx as usize];
@@ -221,7 +221,7 @@ pub fn run_c16(ctx: &Ctx) -> i32 {
         }
     });
     // (3) every non-zero XOR byte at every byte position + truncation at every byte
-    let byte_bases = ctx.tier.pick(3, bases.len());
+    let byte_bases = ctx.tier.pick(5, bases.len());
     let mut bwork: Vec<(usize, usize)> = vec![];
     for (bi, b) in bases.iter().enumerate().take(byte_bases) {
         for p in b.audio_offset..b.bytes.len() {
@@ -269,7 +269,7 @@ pub fn run_c16(ctx: &Ctx) -> i32 {
         }
     });
     // (4) random byte strings and random splices of valid frames
-    let n = ctx.tier.pick(200_000, 10_000_000);
+    let n = ctx.tier.pick(600_000, 40_000_000);
     let b5 = Arc::clone(&bases);
     let chunk = 1000u64;
     run_cases(ctx, "random", n / chunk, &mut out, |idx, out| {
